@@ -6,6 +6,7 @@ import (
 	"encoding/hex"
 	"fmt"
 	"os"
+	"regexp"
 	"sort"
 	"strconv"
 	"strings"
@@ -605,6 +606,7 @@ func (w *Worker) refresh(once bool) {
 		// the refresher goroutine may be dialing INFO connections: wait until it waits for the next reply
 		w.H.WaitIdle(1500 * time.Millisecond)
 		time.Sleep(2 * time.Millisecond)
+		w.Log.Add(w.topoEvent("tobs", "", "", false))
 	}
 	if w.Dead || once {
 		return
@@ -612,8 +614,58 @@ func (w *Worker) refresh(once bool) {
 	core.VerifRequestTick()
 	w.H.Wake()
 	w.settle(16)
+	w.Log.Add(w.topoEvent("refreshed", "", "", false))
+}
+
+// lastParsed renders the refresher's record of the topology it parsed last ("addr#0#[{lo hi} ...]" for masters,
+// "addr#1#<master id>" for replicas, comma separated, sorted) as node records.
+func (w *Worker) lastParsed() []NodeDesc {
+	var out []NodeDesc
+	byID := map[string]string{}
+	for _, n := range w.Cl.Nodes {
+		byID[n.Id] = n.Name
+	}
+	for _, item := range strings.Split(core.VerifLastServerNames(), ",") {
+		f := strings.SplitN(item, "#", 3)
+		if len(f) != 3 {
+			continue
+		}
+		d := NodeDesc{Name: f[0], LinkOK: true}
+		if n := w.Cl.NodeByAddr(f[0]); n != nil {
+			d.Name = n.Name
+		}
+		if f[1] == "0" {
+			d.Role = "master"
+			for _, m := range rangeRe.FindAllStringSubmatch(f[2], -1) {
+				lo, _ := strconv.Atoi(m[1])
+				hi, _ := strconv.Atoi(m[2])
+				d.Ranges = append(d.Ranges, [2]int{lo, hi})
+			}
+		} else {
+			d.Role = "slave"
+			d.MasterOf = f[2]
+			if nm, ok := byID[f[2]]; ok {
+				d.MasterOf = nm
+			}
+		}
+		out = append(out, d)
+	}
+	return out
+}
+
+var rangeRe = regexp.MustCompile(`\{(\d+) (\d+)\}`)
+
+// topoEvent records the proxy's routing table, its pools and the state of the topology pipeline.
+func (w *Worker) topoEvent(kind, tAt, rAt string, iter bool) Event {
+	ev := Event{Ev: kind}
+	if iter && tAt == "" {
+		// ticker() is somewhere inside an iteration and not parked (blocked on the mutex, or merely slow): the loop's
+		// maps must not be walked now; the channel length and the flag are single reads
+		ev.Tobs = TopoObs{TAt: tAt, RAt: rAt, Iter: iter, Chan: core.VerifClusterChanLen(), Changed: core.VerifServerChanged()}
+		ev.K = "partial"
+		return ev
+	}
 	s := core.VerifSnapshot(true)
-	ev := Event{Ev: "refreshed"}
 	name := func(addr string) string {
 		if n := w.Cl.NodeByAddr(addr); n != nil {
 			return n.Name
@@ -628,13 +680,32 @@ func (w *Worker) refresh(once bool) {
 		sort.Strings(tr.Slaves)
 		ev.Table = append(ev.Table, tr)
 	}
-	w.Log.Add(ev)
+	ev.Tobs = TopoObs{TAt: tAt, RAt: rAt, Iter: iter, Chan: core.VerifClusterChanLen(), Changed: s.ServerChanged}
+	for _, p := range s.Pools {
+		if !p.Closed {
+			ev.Tobs.Pools = append(ev.Tobs.Pools, PoolObs{Name: name(p.Addr), Slave: p.IsSlave})
+		}
+	}
+	sort.Slice(ev.Tobs.Pools, func(i, j int) bool { return ev.Tobs.Pools[i].Name < ev.Tobs.Pools[j].Name })
+	return ev
 }
 
 // RunScenario replays one scenario in step mode and leaves the proxy clean for the next one.
 func (w *Worker) RunScenario(sc *Scenario) {
 	w.Log.Tid++
 	w.Log.Add(Event{Ev: "begin", Txt: sc.Id, K: sc.Role})
+	for _, st := range sc.Steps {
+		for _, x := range st.Stim {
+			if x.Op == "topo" || x.Op == "race" {
+				// scenarios about the topology pipeline start from what the proxy routes by now
+				ev := w.topoEvent("tinit", "", "", false)
+				ev.Desc = w.lastParsed()
+				w.Log.Add(ev)
+				goto opened
+			}
+		}
+	}
+opened:
 	// open every client the scenario mentions and let the proxy accept them
 	seenC := map[string]bool{}
 	for _, st := range sc.Steps {
